@@ -9,30 +9,58 @@ namespace Martian.Invocation
 
 /-! ### scalars -/
 
-theorem encLit_idem (l : Lit) : encLit (encLit l) = encLit l := by
-  cases l with
-  | flt f =>
-    by_cases h : f.printsAsInt = true
-    · simp [encLit, h]
-    · simp [encLit, h]
-  | _ => rfl
-
 theorem inInt64_small (n : Nat) (neg : Bool) (h : n < 1000000) :
     inInt64 (if neg = true then -(Int.ofNat n) else Int.ofNat n) = true := by
   cases neg <;> simp [inInt64] <;> omega
 
+theorem jsonAsInt_inInt64 (f : Flt) (h : f.jsonAsInt = true) : inInt64 f.intVal = true := by
+  simp only [Flt.jsonAsInt, Bool.or_eq_true, beq_iff_eq, Bool.and_eq_true] at h
+  rcases h with h0 | ⟨_, hi⟩
+  · simp [Flt.intVal, h0, inInt64]
+  · exact hi
+
+theorem encLit_idem (l : Lit) : encLit (encLit l) = encLit l := by
+  cases l with
+  | flt f =>
+    by_cases h : f.jsonAsInt = true
+    · simp [encLit, h]
+    · simp [encLit, h]
+  | _ => rfl
+
 theorem litOk_encLit (l : Lit) (h : litOk l = true) : litOk (encLit l) = true := by
   cases l with
   | flt f =>
-    by_cases hp : f.printsAsInt = true
+    by_cases hp : f.jsonAsInt = true
     · simp only [encLit, hp, if_true, litOk]
-      simp only [Flt.printsAsInt, Bool.or_eq_true, beq_iff_eq, Bool.and_eq_true,
-        decide_eq_true_eq] at hp
-      rcases hp with h0 | ⟨_, hlt⟩
-      · simp [Flt.intVal, h0, inInt64]
-      · exact inInt64_small _ _ hlt
+      exact jsonAsInt_inInt64 f hp
     · simp [encLit, hp, litOk]
   | _ => simpa [encLit] using h
+
+/-- whatever the text printer writes as an integer, the JSON printer does too -/
+theorem textAsInt_jsonAsInt (f : Flt) (h : f.textAsInt = true) : f.jsonAsInt = true := by
+  simp only [Flt.textAsInt, Bool.or_eq_true, beq_iff_eq, Bool.and_eq_true,
+    decide_eq_true_eq] at h
+  simp only [Flt.jsonAsInt, Bool.or_eq_true, beq_iff_eq, Bool.and_eq_true, decide_eq_true_eq]
+  rcases h with h0 | ⟨he, hlt⟩
+  · exact Or.inl h0
+  · exact Or.inr ⟨he, inInt64_small _ _ hlt⟩
+
+theorem encLit_textLit (l : Lit) : encLit (textLit l) = encLit l := by
+  cases l with
+  | flt f =>
+    by_cases h : f.textAsInt = true
+    · simp [textLit, encLit, h, textAsInt_jsonAsInt f h]
+    · simp [textLit, h]
+  | _ => rfl
+
+theorem litOk_textLit (l : Lit) (h : litOk l = true) : litOk (textLit l) = true := by
+  cases l with
+  | flt f =>
+    by_cases hp : f.textAsInt = true
+    · simp only [textLit, hp, if_true, litOk]
+      exact jsonAsInt_inInt64 f (textAsInt_jsonAsInt f hp)
+    · simp [textLit, hp, litOk]
+  | _ => simpa [textLit] using h
 
 /-! ### `encode` ignores the struct-vs-map flags -/
 mutual
@@ -375,5 +403,36 @@ theorem canonData_cons (p : Str) (t : TypeId) (ps : Sig) (d : Data) :
   by_cases h : (d.args.any (fun q => q.1 = p) && d.splitargs.contains p) = true
   · simp only [canonData, List.map_cons, List.filter_cons, h, if_true]
   · simp only [canonData, List.map_cons, List.filter_cons, h, if_false, Bool.false_eq_true]
+
+/-! ### the text leg (format → parse) does not change the JSON -/
+mutual
+theorem encode_reparse : ∀ (e : Exp), encode (reparse e) = encode e
+  | .lit l => by simp [reparse, encode, encLit_textLit]
+  | .arr xs => by simp [reparse, encode, encodeList_reparseList xs]
+  | .map _ kvs => by simp [reparse, encode, encodeKvs_reparseKvs kvs]
+theorem encodeList_reparseList : ∀ (xs : EList), encodeList (reparseList xs) = encodeList xs
+  | .nil => by simp [reparseList, encodeList]
+  | .cons e r => by simp [reparseList, encodeList, encode_reparse e, encodeList_reparseList r]
+theorem encodeKvs_reparseKvs : ∀ (kvs : EKvs), encodeKvs (reparseKvs kvs) = encodeKvs kvs
+  | .nil => by simp [reparseKvs, encodeKvs]
+  | .cons k e r => by simp [reparseKvs, encodeKvs, encode_reparse e, encodeKvs_reparseKvs r]
+end
+
+mutual
+theorem intsOk_reparse : ∀ (e : Exp), intsOk e = true → intsOk (reparse e) = true
+  | .lit l, h => by simp only [intsOk] at h; simp [reparse, intsOk, litOk_textLit l h]
+  | .arr xs, h => by simp only [intsOk] at h; simp [reparse, intsOk, intsOkList_reparse xs h]
+  | .map _ kvs, h => by simp only [intsOk] at h; simp [reparse, intsOk, intsOkKvs_reparse kvs h]
+theorem intsOkList_reparse : ∀ (xs : EList), intsOkList xs = true → intsOkList (reparseList xs) = true
+  | .nil, _ => by simp [reparseList, intsOkList]
+  | .cons e r, h => by
+    simp only [intsOkList, Bool.and_eq_true] at h
+    simp [reparseList, intsOkList, intsOk_reparse e h.1, intsOkList_reparse r h.2]
+theorem intsOkKvs_reparse : ∀ (kvs : EKvs), intsOkKvs kvs = true → intsOkKvs (reparseKvs kvs) = true
+  | .nil, _ => by simp [reparseKvs, intsOkKvs]
+  | .cons k e r, h => by
+    simp only [intsOkKvs, Bool.and_eq_true] at h
+    simp [reparseKvs, intsOkKvs, intsOk_reparse e h.1, intsOkKvs_reparse r h.2]
+end
 
 end Martian.Invocation
